@@ -10,6 +10,11 @@ CLAIMED = {
    note="Trusted: the reference Demon codec in harness/refdemon (written from the Demon C sources), TLC, Go's crypto/aes. Relay producers are represented by direct AddJobToQueue calls. Schedules finer than a Go statement are reached only by the stress driver.",
    technique="TLA+ spec + TLC exhaustive check; TLC-generated behaviours replayed into the real code; TLC trace validation (strict + property monitor)",
    design="DESIGN.md §5 C04"),
+ "C05": dict(
+   text="Gate.tla models the request-id gate (issue, callback of 10 classes incl. final/relay/beacon-output, forged ids of all three kinds); TLC explores its complete state space for both settings of log forwarding. TLC-generated behaviours are replayed as real Demon packets through the External-C2 handler; the effect recorder diffs retained events, session records, outstanding ids, loot tree and the TS_Agents/TS_Links tables around every callback; TLC validates the recorded executions strictly and with the property monitor (effect => outstanding id or exempt kind, with outstanding ids rebuilt from the calls alone).",
+   note="Trusted: reference Demon encoder, the effect recorder's projection (world/snapshot.go). Which callbacks are final is protocol knowledge from the Demon sources. Callback classes covered are the ones concretised in drive/gate.go; outbound dials are covered by C15's socket checks, not here.",
+   technique="TLA+ spec + exhaustive TLC; generated behaviours replayed into the real code; TLC trace validation (strict + monitor)",
+   design="DESIGN.md §5 C05"),
 }
 NOT_BUILT = "machinery not built yet (construction order in DESIGN.md §8); not claimed until its check runs clean on the unchanged tree"
 
